@@ -13,6 +13,7 @@ from data_msg import TxMsg, RxMsg, Modulation
 import data_if
 import data_dump
 import io
+import os
 
 
 class MemSock:
@@ -164,8 +165,127 @@ def dump_file(data):
     return ddf
 
 
+class HistObj:
+    """ONE DATADumpFile object kept alive across a history, made in one of the three ways the class can
+    be used: on an io.BytesIO ("b"), on a file object opened "w+b" by the caller ("w", as the toolkit's own
+    test does), or from a path ("p": the class itself opens it "a+b", as burst_gen/burst_send/trx_sniff do).
+    Files live under $VERIF_SCRATCH only."""
+    seq = 0
+
+    def __init__(self, mode, data):
+        self.mode = mode
+        self.path = None
+        if mode != "b":
+            d = os.environ["VERIF_SCRATCH"]
+            HistObj.seq += 1
+            self.path = os.path.join(d, "capture.%d.%d.bin" % (os.getpid(), HistObj.seq))
+        self.open(bytes(data))
+
+    def open(self, data):
+        if self.mode == "b":
+            self.ddf = data_dump.DATADumpFile(io.BytesIO(data))
+        elif self.mode == "w":
+            f = open(self.path, "w+b")
+            f.write(data)
+            f.seek(0)
+            self.ddf = data_dump.DATADumpFile(f)
+        elif self.mode == "p":
+            with open(self.path, "wb") as f:
+                f.write(data)
+            self.ddf = data_dump.DATADumpFile(self.path)
+        else:
+            raise AssertionError("bad mode")
+
+    def content(self):
+        """the stored octets, read WITHOUT the object under test (file modes: from the disk)"""
+        if self.mode == "b":
+            return self.ddf.f.getvalue()
+        self.ddf.f.flush()
+        with open(self.path, "rb") as f:
+            return f.read()
+
+    def close(self):
+        f = self.ddf.f
+        self.ddf = None          # DATADumpFile.__del__ closes the file
+        if not f.closed:
+            f.close()
+        if self.path is not None and os.path.exists(self.path):
+            os.unlink(self.path)
+
+    def crash(self, n):
+        """the file is cut at octet n and opened again (a new object)"""
+        data = self.content()[:n]
+        self.close()
+        self.open(data)
+
+
+def show_res(r):
+    return "None" if r is None else ("False" if r is False else show_msg(r))
+
+
+def run_hist(mode, data, tok):
+    h = HistObj(mode, data)
+    out = []
+    try:
+        i = 0
+        while i < len(tok):
+            op = tok[i]
+            if op == "A":
+                n = 6 if tok[i + 1] == "T" else 12
+                msgs = mk_msgs(tok[i + 1:i + 1 + n])
+                assert len(msgs) == 1
+                i += 1 + n
+                try:
+                    h.ddf.append_msg(msgs[0])
+                    out.append("D")
+                except Exception as e:
+                    out.append("E " + type(e).__name__)
+            elif op == "L":
+                cnt = int(tok[i + 1])
+                j = i + 2
+                for _ in range(cnt):
+                    j += 6 if tok[j] == "T" else 12
+                msgs = mk_msgs(tok[i + 2:j])
+                assert len(msgs) == cnt
+                i = j
+                try:
+                    h.ddf.append_all(msgs)
+                    out.append("D")
+                except Exception as e:
+                    out.append("E " + type(e).__name__)
+            elif op == "M":
+                idx = int(tok[i + 1])
+                i += 2
+                try:
+                    out.append("m " + show_res(h.ddf.parse_msg(idx)))
+                except Exception as e:
+                    out.append("E " + type(e).__name__)
+                    return " ; ".join(out) + " | ?"
+            elif op == "P":
+                skip, count = opt_nat(tok[i + 1]), opt_nat(tok[i + 2])
+                i += 3
+                try:
+                    out.append("a " + show_all(h.ddf.parse_all(skip, count)))
+                except Exception as e:
+                    out.append("E " + type(e).__name__)
+                    return " ; ".join(out) + " | ?"
+            elif op == "X":
+                h.crash(int(tok[i + 1]))
+                i += 2
+                out.append("X")
+            else:
+                raise AssertionError("bad history operation")
+        return " ; ".join(out) + " | " + show_octets(h.content())
+    finally:
+        h.close()
+
+
 def handle_dump(tok):
     verb = tok[0]
+    if verb == "dump.hist":
+        if tok[1] not in ("b", "w", "p"):
+            return "bad-op"
+        return ok(run_hist(tok[1], octets(tok[2]), tok[3:]))
     if verb == "dump.write":
         ddf = dump_file(b"")
         ddf.append_all(mk_msgs(tok[1:]))
@@ -230,6 +350,17 @@ def handle(tok):
     if verb == "trxd.rx.rt":
         m = RxMsg()
         m.parse_msg(mk_rx(tok[2:]).gen_msg(tok[1] == "1"))
+        return ok(show_rx(m))
+    # oracle only: ONE decoder object decodes the encoding of a first message, then of a second one
+    if verb == "trxd.tx.rt2":
+        m = TxMsg()
+        m.parse_msg(mk_tx(tok[2:7]).gen_msg(tok[1] == "1"))
+        m.parse_msg(mk_tx(tok[8:13]).gen_msg(tok[7] == "1"))
+        return ok(show_tx(m))
+    if verb == "trxd.rx.rt2":
+        m = RxMsg()
+        m.parse_msg(mk_rx(tok[2:13]).gen_msg(tok[1] == "1"))
+        m.parse_msg(mk_rx(tok[14:25]).gen_msg(tok[13] == "1"))
         return ok(show_rx(m))
     if verb == "trxd.tx.trans":
         return ok(show_rx(mk_tx(tok[2:]).trans(opt_int(tok[1]))))
